@@ -272,8 +272,8 @@ def piece_text(p, locfn):
 def plain_loc(loc):
     """Positions of a program that came from the AST dump: real (line, col)."""
     if isinstance(loc, dict):
-        l, c = plain_loc(loc["base"])
-        return l, c + loc["off"] + 4
+        # an interpolation slot: the dump gives the position of its `$`; the expression starts after `${`
+        return loc["sloc"][0], loc["sloc"][1] + 2
     return loc[0], loc[1]
 
 
